@@ -486,8 +486,9 @@ def finish(ctx, spec, t0, infra=None):
                   infra_error=(str(infra)[:2000] if infra else None)),
               assumptions=spec.get("assumptions", []))
     os.makedirs(os.path.join(ROOT, "evidence"), exist_ok=True)
-    with open(os.path.join(ROOT, "evidence", prop + ".json"), "w") as f:
-        json.dump(ev, f, indent=1, default=str)
+    if not os.environ.get("VERIF_ONLY"):    # a partial (development) run leaves the evidence of the last complete run alone
+        with open(os.path.join(ROOT, "evidence", prop + ".json"), "w") as f:
+            json.dump(ev, f, indent=1, default=str)
     for l in lines:
         print(l, flush=True)
     if infra is not None:
@@ -503,7 +504,10 @@ def run_check(prop, spec, tier, seed, keep=False):
     ctx = Ctx(prop, tier, seed, keep)
     try:
         try:
+            only = os.environ.get("VERIF_ONLY")   # development aid: run the stages whose label contains this text
             for st in spec["stages"](tier, seed):
+                if only and only not in st.get("label", ""):
+                    continue
                 RUNNERS[st["kind"]](ctx, st)
         except Infra as e:
             return finish(ctx, spec, t0, infra=e)
